@@ -9,20 +9,20 @@ Local Open Scope string_scope.
 
 (* For callbacks attached to non-underscore rule names, aliases, template names and terminals:
    building with the callbacks spliced into the per-rule chain (and terminal callbacks applied at
-   shift time) equals transforming the shaped tree afterwards (with visit_tokens at its default
-   True: the embedded parser installs the terminal callbacks unconditionally), for every derivation. *)
-Theorem C16_embedded_eq_posthoc T mp d :
+   shift time iff visit_tokens is on) equals transforming the shaped tree afterwards with the same
+   visit_tokens setting, for every derivation. *)
+Theorem C16_embedded_eq_posthoc T (visit_tokens : bool) mp d :
   (forall n, starts_us n = true -> on_rule T n = None) ->
   wf_dtree mp d = true ->
-  embedded T mp d = option_map (tr T true) (shape mp d).
-Proof. exact (fun H => embedded_eq_posthoc T H mp d). Qed.
+  embedded T visit_tokens mp d = option_map (tr T visit_tokens) (shape mp d).
+Proof. exact (fun H => embedded_eq_posthoc T visit_tokens H mp d). Qed.
 Print Assumptions C16_embedded_eq_posthoc.
 
 (* ... where "building" is what the LALR driver does: post-order shift/reduce with the wrapped
    user callbacks as coded in create_callback *)
-Theorem C16_embedded_driver T mp d : wf_dtree mp d = true ->
-  embedded_run T mp (postorder d) = option_map (fun v => [v]) (embedded T mp d).
-Proof. exact (driver_builds value VNone vkids (on_rule T) VTree (call_token T) mp d). Qed.
+Theorem C16_embedded_driver T (visit_tokens : bool) mp d : wf_dtree mp d = true ->
+  embedded_run T visit_tokens mp (postorder d) = option_map (fun v => [v]) (embedded T visit_tokens mp d).
+Proof. exact (driver_builds value VNone vkids (on_rule T) VTree (visit_tok T visit_tokens) mp d). Qed.
 Print Assumptions C16_embedded_driver.
 
 (* Transformer, Transformer_NonRecursive (fuel = size of the tree suffices), Transformer_InPlace
@@ -72,7 +72,7 @@ Example C16_example :
   transform_ip ex_T false ex_tree
   = Some (VUser "a" [VTok "A" "1"; VTree "_x" [VTok "B" "2"; VNone]; VUser "c" []], [[1]; [2]; []]) /\
   wf_dtree true ex_d = true /\
-  embedded ex_T true ex_d = Some (VUser "a" [VUser "A" [VTok "A" "a"]; VNone; VUser "c" []]).
+  embedded ex_T true true ex_d = Some (VUser "a" [VUser "A" [VTok "A" "a"]; VNone; VUser "c" []]).
 Proof.
   split; [|repeat split; vm_compute; reflexivity].
   intros n H. unfold ex_T, sym_T. simpl.
